@@ -283,7 +283,7 @@ def _run_check(mod: Any, check_id: str, tier: str, sd: int, t0: float, tmp: Path
     for i, v in new_viol:
         keycount[v['key']] = keycount.get(v['key'], 0) + 1
     rc = 0
-    rdir = VERIF / 'replays' / check_id
+    rdir = Path(os.environ.get('VERIF_REPLAY_DIR') or VERIF / 'replays') / check_id
     printed = set()
     for i, v in new_viol:
         rc = 1
